@@ -324,6 +324,14 @@ CLASSNAMES = {
 }
 
 
+VERSION_VARIANTS = {'Date', 'Date10', 'DateTime', 'DateTime10', 'GregorianYear', 'GregorianYear10',
+                    'GregorianYearMonth', 'GregorianYearMonth10'}
+
+
+def rec_version(rec):
+    return getattr(rec, 'xsd_version', '?')
+
+
 def accept_labels(b):
     """labels (engine.type_label) of values that are instances of built-in atomic type b"""
     if b in CLASSNAMES:
@@ -529,6 +537,13 @@ def compare_typed(out, rec, exp, got_outcome, via):
                      '%s %s text=%r builtin=%s tags=%s type=%s: got %r (%s) expected %r' % (
                          via, rec.path, rec.text, b, rec.tags, rec.tdesc, x, lab, d))
             return 'bad'
+        if type(d).__name__ in VERSION_VARIANTS and type(x).__name__ in VERSION_VARIANTS and \
+                type(x).__name__ != type(d).__name__:
+            # XSD 1.0 and 1.1 have different value classes (year 0000, year numbering): the schema's version decides
+            out.fail('C20/typed-value/class/xsd-version-variant', '%s %s text=%r type=%s: value %r is a %s, the schema '
+                     'processor (XSD %s) decodes a %s' % (via, rec.path, rec.text, rec.tdesc, x, type(x).__name__,
+                                                          rec_version(rec), type(d).__name__))
+            status = 'class'
         if lab not in accept_labels(b) and rec.union_derived_member and \
                 lab != {'string': 'string'}.get(G.primitive(b), G.primitive(b)):
             out.fail('C20/typed-value/union/derived-member-skipped', '%s %s text=%r type=%s: got %r (%s) expected an xs:%s'
